@@ -85,6 +85,32 @@ Definition sorted_post (s : sorter) (o : outcome) : Prop :=
   | Internal => False
   end.
 
+(* the cycle dictionary: with distinct keys, one entry per remaining node, in order *)
+Lemma cycle_dict_map (g : graph) : NoDup (keys g) ->
+  cycle_dict g = map (fun kv : node * gentry => (fst kv, snd (snd kv))) g.
+Proof.
+  unfold cycle_dict.
+  enough (H : forall (g : graph) (acc : list (node * list node)),
+            NoDup (keys acc ++ keys g) ->
+            fold_left (fun cd kv => aset (fst kv) (snd (snd kv)) cd) g acc
+            = acc ++ map (fun kv : node * gentry => (fst kv, snd (snd kv))) g).
+  { intros Hnd. apply (H g []). exact Hnd. }
+  clear g. induction g as [|[k e] g IH]; intros acc Hnd; simpl; [rewrite app_nil_r; reflexivity|].
+  assert (Hk : ~ In k (keys acc)).
+  { intros Hin. apply NoDup_remove_2 in Hnd. apply Hnd. apply in_or_app. left. exact Hin. }
+  assert (Ea : aset k (snd e) acc = acc ++ [(k, snd e)]).
+  { clear -Hk. induction acc as [|[k' v'] acc IHa]; simpl; [reflexivity|].
+    destruct (text_eqb_spec k k') as [->|Hne]; [exfalso; apply Hk; left; reflexivity|].
+    rewrite IHa; [reflexivity|]. intros H. apply Hk. right. exact H. }
+  rewrite Ea, IH.
+  - rewrite <- app_assoc. reflexivity.
+  - unfold keys. rewrite map_app. simpl. rewrite <- app_assoc. simpl.
+    unfold keys in Hnd. simpl in Hnd.
+    apply NoDup_remove_1 in Hnd as H1. apply NoDup_remove_2 in Hnd as H2.
+    apply (NoDup_Add (a := k) (l := map fst acc ++ map fst g)); [|split; assumption].
+    apply Add_app.
+Qed.
+
 Lemma sorted_state s : sorted_post s (sorted s).
 Proof.
   unfold sorted. destruct (build s) as [g roots] eqn:Eb.
@@ -97,6 +123,7 @@ Proof.
   destruct (loop_inv (parcs s) (keys g) HarcsK (length g) roots g [] HI (le_n _)) as (g' & em & Hl & HI').
   rewrite Hl. destruct (nonempty g') eqn:Eg.
   - (* cycle *)
+    rewrite (cycle_dict_map g') by apply (c_keys_nodup _ _ _ _ _ HI').
     cbn [sorted_post]. split; [exact Emb|]. split; [exact Ema|].
     split.
     + destruct g'; [discriminate|]. simpl. discriminate.
